@@ -81,6 +81,36 @@ Die öffentliche Zahl b ist a mal 2 plus c plus (c10_wert 3).
 c10_melde 93.
 `
 
+// a middle module that imports the leaf and a sibling which imports the leaf too (the leaf listed
+// first / last), and one that imports b (which depends on its sibling a) before a
+const modTopLeafFirst = `Binde "c10ext" ein.
+Binde "c10c" ein.
+Binde "c10b" ein.
+
+Die öffentliche Zahl t ist b plus c plus (c10_wert 5).
+
+c10_melde 95.
+`
+
+const modTopLeafLast = `Binde "c10ext" ein.
+Binde "c10b" ein.
+Binde "c10c" ein.
+
+Die öffentliche Zahl t ist b plus c plus (c10_wert 5).
+
+c10_melde 95.
+`
+
+const modTopSibling = `Binde "c10ext" ein.
+Binde "c10c" ein.
+Binde "c10b" ein.
+Binde "c10a" ein.
+
+Die öffentliche Zahl t ist b plus a plus (c10_wert 5).
+
+c10_melde 95.
+`
+
 func add(c *smt.Ctx, xs ...*smt.Expr) *smt.Expr {
 	r := xs[0]
 	for _, x := range xs[1:] {
@@ -122,6 +152,26 @@ var shapes = []shape{
 			b := add(c, add(c, two(c, a), v[1]), v[3])
 			return add(c, add(c, a, b), v[4])
 		}},
+	{name: "nested_leaf_first", files: map[string]string{"c10ext.ddp": modExt, "c10c.ddp": modC, "c10b.ddp": modB, "c10t.ddp": modTopLeafFirst,
+		"main.ddp": "Binde \"c10ext\" ein.\nBinde \"c10t\" ein.\n\nDie Zahl m ist t plus (c10_wert 4).\nc10_melde m.\n"},
+		inits: []int{1, 3, 5, 4}, order: [][2]int{{1, 3}, {3, 5}, {1, 5}, {5, 4}}, never: []int{91, 93, 95},
+		value: func(c *smt.Ctx, v map[int]*smt.Expr) *smt.Expr {
+			return add(c, add(c, add(c, add(c, two(c, v[1]), v[3]), v[1]), v[5]), v[4])
+		}},
+	{name: "nested_leaf_last", files: map[string]string{"c10ext.ddp": modExt, "c10c.ddp": modC, "c10b.ddp": modB, "c10t.ddp": modTopLeafLast,
+		"main.ddp": "Binde \"c10ext\" ein.\nBinde \"c10t\" ein.\n\nDie Zahl m ist t plus (c10_wert 4).\nc10_melde m.\n"},
+		inits: []int{1, 3, 5, 4}, order: [][2]int{{1, 3}, {3, 5}, {1, 5}, {5, 4}}, never: []int{91, 93, 95},
+		value: func(c *smt.Ctx, v map[int]*smt.Expr) *smt.Expr {
+			return add(c, add(c, add(c, add(c, two(c, v[1]), v[3]), v[1]), v[5]), v[4])
+		}},
+	{name: "nested_sibling_dependency", files: map[string]string{"c10ext.ddp": modExt, "c10c.ddp": modC, "c10a.ddp": modA, "c10b.ddp": modBdepA, "c10t.ddp": modTopSibling,
+		"main.ddp": "Binde \"c10ext\" ein.\nBinde \"c10t\" ein.\n\nDie Zahl m ist t plus (c10_wert 4).\nc10_melde m.\n"},
+		inits: []int{1, 2, 3, 5, 4}, order: [][2]int{{1, 2}, {2, 3}, {1, 3}, {3, 5}, {2, 5}, {5, 4}}, never: []int{91, 92, 93, 95},
+		value: func(c *smt.Ctx, v map[int]*smt.Expr) *smt.Expr {
+			a := add(c, v[1], v[2])
+			b := add(c, add(c, two(c, a), v[1]), v[3])
+			return add(c, add(c, add(c, b, a), v[5]), v[4])
+		}},
 	{name: "selective", files: map[string]string{"c10ext.ddp": modExt, "c10c.ddp": modC, "c10a.ddp": modA, "c10b.ddp": modB,
 		"main.ddp": "Binde \"c10ext\" ein.\nBinde b aus \"c10b\" ein.\nBinde a aus \"c10a\" ein.\n\nDie Zahl m ist a minus b plus (c10_wert 4).\nc10_melde m.\n"},
 		inits: []int{1, 2, 3, 4}, order: [][2]int{{1, 2}, {1, 3}, {2, 4}, {3, 4}}, never: []int{91, 92, 93},
@@ -143,7 +193,7 @@ type ctx struct {
 
 func Run(r *core.Report, env *build.Env) {
 	r.Level = "model_checking"
-	r.Bounds["import_graphs"] = fmt.Sprintf("%d shapes over up to 5 modules: chain, diamond (leaf also imported directly, first or last; selective imports), sibling dependency, code before and after an import", len(shapes))
+	r.Bounds["import_graphs"] = fmt.Sprintf("%d shapes over up to 6 modules: chain, diamond (leaf also imported directly, first or last; selective imports), sibling dependency, the same arrangements below a module the main module imports, code before and after an import", len(shapes))
 	r.Bounds["values"] = "every module's initialiser obtains an unconstrained 64-bit number from the environment; the reported combination is compared for all values"
 	r.Bounds["visibility"] = "two in-memory modules: every subset of 3 public and 3 private library declarations (function, variable, Konstante) x 8 import forms x 6 uses; two libraries with same-named private helpers"
 	r.Assumptions = append(r.Assumptions, "c10_wert/c10_melde are extern functions modelled as event-recording stubs returning fresh symbolic numbers", "realloc never fails")
